@@ -125,6 +125,10 @@ class IsoTpStateMachine:
             if expected_segment_idx != rx_segment_idx:
                 self.on_sequence_error(telegram_idx, expected_segment_idx, rx_segment_idx)
             elif len(telegram_data) == n:
+                # the transfer is finished: further consecutive frames
+                # must not be appended to (and re-report) this telegram
+                self._telegram_data[telegram_idx] = None
+
                 self.on_telegram_complete(telegram_idx, telegram_data)
                 yield (rx_id, telegram_data)
 
